@@ -196,14 +196,25 @@ func (r *renderer) term(v ssa.Value) string {
 			return "φ↺"
 		}
 		r.phis[x] = true
-		defer delete(r.phis, x)
 		set := map[string]bool{}
 		for _, e := range x.Edges {
 			set[r.term(e)] = true
 		}
+		delete(r.phis, x)
 		var parts []string
+		cyclic := false
 		for k := range set {
+			if strings.Contains(k, "φ↺") {
+				cyclic = true
+			}
 			parts = append(parts, k)
+		}
+		if cyclic {
+			// loop-carried variable: named after the source variable
+			if x.Comment != "" {
+				return "φ" + x.Comment
+			}
+			return "φ?"
 		}
 		sort.Strings(parts)
 		if len(parts) == 1 {
@@ -232,6 +243,47 @@ func (r *renderer) term(v ssa.Value) string {
 	return fmt.Sprintf("?%T", v)
 }
 
+// spilledParam recognises the alloc go/ssa creates for an address-taken
+// parameter: its first store, in the entry block, is the parameter itself.
+func spilledParam(a *ssa.Alloc) *ssa.Parameter {
+	refs := a.Referrers()
+	if refs == nil {
+		return nil
+	}
+	for _, r := range *refs {
+		if st, ok := r.(*ssa.Store); ok && st.Addr == a {
+			if p, ok := st.Val.(*ssa.Parameter); ok && st.Block().Index == 0 {
+				return p
+			}
+		}
+	}
+	return nil
+}
+
+// singleStore: a local that is assigned as a whole exactly once is named by
+// the value it was initialised from (a read-only copy such as dt := d.dynTab.table).
+func singleStore(a *ssa.Alloc) ssa.Value {
+	refs := a.Referrers()
+	if refs == nil {
+		return nil
+	}
+	var val ssa.Value
+	n := 0
+	for _, r := range *refs {
+		if st, ok := r.(*ssa.Store); ok && st.Addr == a {
+			n++
+			val = st.Val
+		}
+	}
+	if n != 1 {
+		return nil
+	}
+	if _, isConst := val.(*ssa.Const); isConst {
+		return nil
+	}
+	return val
+}
+
 func allocName(a *ssa.Alloc) string {
 	if a.Comment != "" {
 		return a.Comment
@@ -246,6 +298,12 @@ func (r *renderer) deref(p ssa.Value) string {
 	case *ssa.IndexAddr:
 		return r.base(x.X) + "[" + r.term(x.Index) + "]"
 	case *ssa.Alloc:
+		if p := spilledParam(x); p != nil {
+			return paramName(p)
+		}
+		if v := singleStore(x); v != nil {
+			return r.term(v)
+		}
 		return "%" + allocName(x)
 	case *ssa.FreeVar:
 		return "^" + x.Name()
